@@ -171,3 +171,16 @@ add("C17", "exploration",
     "The fake API implements only what the code uses; identity headers (X-AppEngine-*) and service routing are the platform's job and are "
     "set by the harness, never taken from a simulated client; /cron/* is admin-only by app configuration and not exercised with other callers.",
     "stateful property-based testing (rapid): generated call histories against a reference access-control model with store read-back", "3/C17")
+add("C19", "fault_enumeration",
+    "Relay: generated sets of 1-8 concurrent end-user requests over 1-3 backends run through the three services of the real App Engine "
+    "proxy binary (-race) on the fake App Engine API, with harness-played agents listing, fetching and responding in generated orders; "
+    "payloads are calibrated so that the serialised size lands exactly on 999999/1000000/1000001/1999999/2000000/2000001/3.5M; fetched "
+    "bytes must parse back to the client's own request and each client must receive the response posted under its own id; completed ids "
+    "must leave the pending list. Blobs: write/read round trips through cache+store in-process at the same sizes with memcache kept or "
+    "flushed. Faults: subsets of nine store operations fail for their first 1-5 matching calls during a generated phase; every call must "
+    "return within 8 s (the waiting client within 45 s) with a correct result or an error status, and a re-posted response must arrive "
+    "intact. The fault space (subset x count x phase x sizes) is sampled, not enumerated; the 504 path runs once in the thorough tier.",
+    "The fake datastore/memcache implement only what the code uses (no 1 MiB RPC limit, no eventual consistency); every client request has "
+    "a unique URL and platform request id and every posted response carries Cache-Control (the proxy's own GET response cache is not part "
+    "of this property).",
+    "property-based testing (rapid) with injected store faults: token/round-trip oracles on a wire-level fake of the App Engine API", "3/C19")
